@@ -132,13 +132,23 @@ def _compilation_signature(cffi_extra_compile_args, cffi_debug):
 
     - SOABI includes platform, Python version, debug flags
     - CFLAGS includes prefixes, arch targets
+    - CC, CFLAGS, CPPFLAGS, LDFLAGS, LDSHARED of the environment override these
     """
+    # Compiler and flags taken from the environment by setuptools: they change
+    # (CFLAGS even replaces) the build command, so they belong to the signature.
+    # Nothing is added if none of them is set.
+    environment = "".join(
+        f"{name}={os.environ[name]};"
+        for name in ("CC", "CFLAGS", "CPPFLAGS", "LDFLAGS", "LDSHARED")
+        if name in os.environ
+    )
     if sys.platform.startswith("win32"):
         # NOTE: SOABI not defined on win32, EXT_SUFFIX contains e.g. '.cp312-win_amd64.pyd'
         return (
             str(cffi_extra_compile_args)
             + str(cffi_debug)
             + str(sysconfig.get_config_var("EXT_SUFFIX"))
+            + environment
         )
     else:
         return (
@@ -146,6 +156,7 @@ def _compilation_signature(cffi_extra_compile_args, cffi_debug):
             + str(cffi_debug)
             + str(sysconfig.get_config_var("CFLAGS"))
             + str(sysconfig.get_config_var("SOABI"))
+            + environment
         )
 
 
